@@ -206,6 +206,27 @@ def fact_el_case_showCursorMsg : List String := [
 def fact_el_case_windowSizeMsg : List String := [
     "go p.checkResize()"]
 
+def fact_el_cases : List String := [
+    "QuitMsg",
+    "InterruptMsg",
+    "SuspendMsg",
+    "clearScreenMsg",
+    "enterAltScreenMsg",
+    "exitAltScreenMsg",
+    "enableMouseCellMotionMsg_enableMouseAllMotionMsg",
+    "disableMouseMsg",
+    "showCursorMsg",
+    "hideCursorMsg",
+    "enableBracketedPasteMsg",
+    "disableBracketedPasteMsg",
+    "enableReportFocusMsg",
+    "disableReportFocusMsg",
+    "execMsg",
+    "BatchMsg",
+    "sequenceMsg",
+    "setWindowTitleMsg",
+    "windowSizeMsg"]
+
 def fact_el_head : List String := [
     "case <-p.ctx.Done(): return a1, nil",
     "case v1 := <-p.errs: return a1, v1",
